@@ -27,7 +27,10 @@ VERIF = Path(__file__).resolve().parent.parent
 LEAN_DIR = VERIF / "lean"
 OUT = VERIF / "out"
 REPLAY_DIR = OUT / "replay"
-DRIVER = LEAN_DIR / ".lake" / "build" / "bin" / "driver"
+
+
+def driver_path(prop: str) -> Path:
+    return LEAN_DIR / ".lake" / "build" / "bin" / f"driver_{prop.lower()}"
 
 
 # ----------------------------------------------------------------------------- exact export
@@ -108,11 +111,13 @@ def dyadic(rng: random.Random, lo: int, hi: int, p: int) -> float:
 class Lean:
     """Pipe to the compiled Lean driver (one request line -> one answer line)."""
 
-    def __init__(self):
-        if not DRIVER.exists():
-            raise RuntimeError(f"Lean driver not built: {DRIVER}")
+    def __init__(self, prop: str):
+        drv = driver_path(prop)
+        if not drv.exists():
+            raise RuntimeError(f"Lean driver not built: {drv}")
+        self.prop = prop
         self.p = subprocess.Popen(
-            [str(DRIVER)], stdin=subprocess.PIPE, stdout=subprocess.PIPE, text=True, bufsize=1
+            [str(drv)], stdin=subprocess.PIPE, stdout=subprocess.PIPE, text=True, bufsize=1
         )
         self.n = 0
         if self.ask("ping") != "pong":
@@ -155,7 +160,7 @@ class Ctx:
         self.nprng = np.random.default_rng(
             int(hashlib.sha256(f"{prop}:{seed}:{worker}".encode()).hexdigest()[:12], 16)
         )
-        self.lean = Lean()
+        self.lean = Lean(prop)
         self.t0 = time.time()
         self.evaluations = 0
         self.distinct = set()
@@ -166,6 +171,10 @@ class Ctx:
         self.infos: list[str] = []
         self._seen_keys = set()
         self.deadline = None
+
+    def ask(self, op: str, *args: str) -> str:
+        """Send `<PROP> <op> <args…>` to this property's Lean driver; returns the answer line."""
+        return self.lean.ask(" ".join([self.prop, op, *args]))
 
     # budgets -------------------------------------------------------------
     def n(self, quick: int, thorough: int) -> int:
